@@ -1,6 +1,7 @@
 //! vh: model-based history runner for recatek/gecs (engine H and B of /verif/DESIGN.md).
 
 pub mod comps;
+pub mod conv;
 pub mod driver;
 pub mod forge;
 pub mod interp;
